@@ -58,19 +58,16 @@ def drive_osp(inp):
     budget = 4 * L if L is not None else None   # an episode that never ends is only ever cut
     rec = Recorder(mgr)
     w = OpenSpielWrapper(mgr, discounts={aid(i): discs[i] for i in range(script[1]) if script[2][i]})
-    flags = {"fake": False}
-    orig_fake = w._take_fake_step
 
-    def rfake():
-        flags["fake"] = True
-        return orig_fake()
-    w._take_fake_step = rfake
+    def fake(r, log):
+        # a "fake step" (every submitted action was for a finished agent) answers with a time step
+        # without consulting the manager: observable as such, no hook into the adapter needed
+        return 1 if (r[0] == 0 and not log) else 0
     calls, events = [], []
     amax = max(1, min([nacts[i] for i in range(script[1]) if script[2][i]] or [1]))
     timeout = 0
 
     def do(call, f):
-        flags["fake"] = False
         try:
             r = enc_timestep(f())
         except AssertionError:
@@ -80,7 +77,8 @@ def drive_osp(inp):
         except BaseException:
             r = [3]
         calls.append(call)
-        events.append([r, rec.take(), 1 if flags["fake"] else 0])
+        log = rec.take()
+        events.append([r, log, fake(r, log)])
         return r
 
     since_first = 0
@@ -102,7 +100,6 @@ def drive_osp(inp):
                 else:
                     al = [rng.randrange(amax) for _ in range(n_learn)]
                 nsh = len(rec.shuffles)
-                flags["fake"] = False
                 try:
                     r = enc_timestep(w.step(list(al)))
                 except AssertionError:
@@ -113,7 +110,8 @@ def drive_osp(inp):
                     r = [3]
                 sh = [rec.shuffles[nsh]] if len(rec.shuffles) > nsh else []
                 calls.append([1, al, sh])
-                events.append([r, rec.take(), 1 if flags["fake"] else 0])
+                log = rec.take()
+                events.append([r, log, fake(r, log)])
                 if r[0] != 0:
                     break
                 if r[1] == 0:
